@@ -340,6 +340,44 @@ class lodict(odict):
         """
         return super(lodict, self).get(key.lower(), default)
 
+    def pop(self, key, *default):
+        """
+        Make key lowercase then pop
+        """
+        return super(lodict, self).pop(key.lower(), *default)
+
+    def insert(self, index, key, val):
+        """
+        Make key lowercase then insert
+        """
+        super(lodict, self).insert(index, key.lower(), val)
+
+    def create(self, *pa, **kwa):
+        """
+        Make keys lowercase then create items only if key not already existent
+        """
+        d = odict()
+        for a in pa:
+            if hasattr(a, 'get'): #positional arg is dictionary
+                for k in a:
+                    d.create([(k.lower(), a[k])])
+            else: #positional arg is sequence of duples (k,v)
+                for k, v in a:
+                    d.create([(k.lower(), v)])
+
+        for k in kwa:
+            d.create([(k.lower(), kwa[k])])
+
+        super(lodict, self).create(d)
+
+    def sift(self, fields=None):
+        """
+        Make field names lowercase then sift
+        """
+        if fields is not None:
+            fields = [field.lower() for field in fields]
+        return super(lodict, self).sift(fields)
+
     def setdefault(self, key, default=None, kind=None):
         """
         convert key to lower and then
@@ -472,7 +510,7 @@ class modict(odict):
             to be returned.
         """
         try:
-            val = self[key][index]
+            val = super(modict, self).__getitem__(key)[index]
             return kind(val) if kind else val
         except Exception:
             pass
@@ -554,7 +592,7 @@ class modict(odict):
         If last is True pop in LIFO order.
         If last is False pop in FIFO order.
         """
-        key, val = super(modict, self).popitem(last=last)
+        key, val = self.poplistitem(last=last)
         return (key, val[index])
 
     def poplistitem(self, last=True):
@@ -563,7 +601,11 @@ class modict(odict):
         If last is True pop in LIFO order.
         If last is False pop in FIFO order.
         """
-        return (super(modict, self).popitem(last=last))
+        try:
+            key = self._keys[-1 if last else 0]
+        except IndexError:
+            raise KeyError('Empty modict.')
+        return (key, super(modict, self).pop(key))
 
     def fromkeys(self, seq, default=None):
         """
@@ -584,8 +626,8 @@ class modict(odict):
                 for k, v in a.iterallitems():
                     self.append(k, v)
             elif hasattr(a, 'get'): #positional arg is dictionary
-                for k, v in a.iteritems():
-                    self.append(k, v)
+                for k in a:
+                    self.append(k, a[k])
             else: #positional arg is sequence of duples (k,v)
                 for k, v in a:
                     self.append(k, v)
